@@ -1,11 +1,13 @@
 #!/bin/bash
-# evalseeds.sh <Cxx>...: evaluates /tmp/seed-Cxx-out/{1,2,3} with evalseed.py; compact results to stdout
+# evalseeds.sh [-2] <Cxx>...: evaluates /tmp/seed-Cxx-out/{1,2,3} (-2: /tmp/seed2-Cxx-out, round 2) with evalseed.py; compact results to stdout
 cd /verif
-for p in "$@"; do for i in 1 2 3; do
-  [ -d /tmp/seed-$p-out/$i ] || continue
-  rm -rf /tmp/seedsrc/$p/s$i; mkdir -p /tmp/seedsrc/$p; cp -r /tmp/seed-$p-out/$i /tmp/seedsrc/$p/s$i
-  python3 evalseed.py $p /tmp/seedsrc/$p/s$i 2>/dev/null > /tmp/seedsrc/$p/s$i.json
-  python3 - /tmp/seedsrc/$p/s$i.json $p $i <<'PY'
+SRC=seed; TAG=s
+if [ "$1" = "-2" ]; then SRC=seed2; TAG=r2s; shift; fi
+for p in "$@"; do for i in 1 2 3 4; do
+  [ -d /tmp/$SRC-$p-out/$i ] || continue
+  rm -rf /tmp/seedsrc/$p/$TAG$i; mkdir -p /tmp/seedsrc/$p; cp -r /tmp/$SRC-$p-out/$i /tmp/seedsrc/$p/$TAG$i
+  python3 evalseed.py $p /tmp/seedsrc/$p/$TAG$i 2>/dev/null > /tmp/seedsrc/$p/$TAG$i.json
+  python3 - /tmp/seedsrc/$p/$TAG$i.json $p $TAG$i <<'PY'
 import json,sys
 try:
     m=json.load(open(sys.argv[1]))
